@@ -5,7 +5,11 @@
 
 mod checks;
 mod explore;
+mod cli;
+mod corpus;
+mod lex;
 mod front;
+mod lspx;
 mod report;
 mod util;
 
@@ -72,6 +76,9 @@ fn main() {
         let case = if v.get("case").is_some() { v["case"].clone() } else { v };
         let r = match id.as_str() {
             "C07" => checks::c07::replay(&case),
+            "C11" => checks::c11::replay(&case),
+            "C12" => checks::c12::replay(&case),
+            "C15" => checks::c15::replay(&case),
             _ => {
                 eprintln!("no replay for {}", id);
                 std::process::exit(2);
@@ -93,6 +100,9 @@ fn main() {
     let mut ctx = Ctx::new(&id, tier);
     match id.as_str() {
         "C07" => checks::c07::run(&mut ctx),
+        "C11" => checks::c11::run(&mut ctx),
+        "C12" => checks::c12::run(&mut ctx),
+        "C15" => checks::c15::run(&mut ctx),
         _ => {
             eprintln!("unknown property {}", id);
             std::process::exit(2);
